@@ -172,6 +172,7 @@ func propC01(c c01Case) (ev.Outcome, error) {
 				}
 				return exp.Calls[i].Ext < exp.Calls[j].Ext
 			})
+			exp.Optional = append(exp.Optional, exp2.Optional...)
 			exp.DontCare = append(exp.DontCare, exp2.DontCare...)
 			for k, v := range exp2.Excluded {
 				exp.Excluded[k] += v
@@ -225,15 +226,25 @@ func propC01(c c01Case) (ev.Outcome, error) {
 
 	got := sortedCalls(out.Calls)
 	if len(exp.Optional) > 0 {
-		opt := map[walkmodel.Extraction]bool{}
+		// an optional call may or may not happen: per (extractor, path) the observed number of
+		// calls may exceed the mandatory number by at most the number of optional ones (with two
+		// scan roots the same relative path can be mandatory in one root and optional in the other)
+		opt := map[walkmodel.Extraction]int{}
 		for _, e := range exp.Optional {
-			opt[e] = true
+			opt[e]++
 		}
+		need := map[walkmodel.Extraction]int{}
+		for _, e := range exp.Calls {
+			need[e]++
+		}
+		seen := map[walkmodel.Extraction]int{}
 		kept := got[:0:0]
 		for _, g := range got {
-			if !opt[g] {
-				kept = append(kept, g)
+			seen[g]++
+			if seen[g] > need[g] && seen[g] <= need[g]+opt[g] {
+				continue
 			}
+			kept = append(kept, g)
 		}
 		got = kept
 		o.Classes = append(o.Classes, "symlink_path_matches_dir_skip_rule")
